@@ -249,14 +249,15 @@ Definition strip_gres (g : gres) : gres :=
   | x => x
   end.
 
-(* clauses 9-11 for one result read back from a roster file *)
+(* clauses 9 and 11 for one result read back from a roster file.  The format holds,
+   per member, the public key and the address and nothing else: what is demanded is
+   exactly that -- the members come back BARE with the key and address that were
+   written (for bare members that is the identity round trip) *)
 Definition roster_file_clause (stored : bytes) (ids : list identity) (r : gres) : list nat :=
   match r with
   | GOk got ro =>
       clause 9 (res_eqb ro (RId stored)) ++
-      (if list_eqb identity_eqb ids got then []
-       else if list_eqb identity_eqb (map strip_identity ids) (map strip_identity got) then [10]
-       else [11])
+      clause 11 (list_eqb identity_eqb (map strip_identity ids) got)
   | _ => [11]
   end.
 
@@ -332,12 +333,9 @@ Definition gagree18 (c : gcase18) : bool :=
     5 what is re-read after writing differs from what was read only in that an empty
       description has become the writer's default text
     6 a well-formed file is rejected (error or panic)
-    9 roster file: the roster id read back is not the id that was written
-   10 roster file: the identities read back differ from those written, but only in
-      that per-service keys / description / URL are gone (the file format has no
-      place for them)
-   11 roster file: the identities read back differ from those written in keys,
-      addresses or number, or the file could not be read back
+    9 roster file: the roster id read back is not the ID field that was written
+   11 roster file: the members read back are not the written members' public keys and
+      addresses (all the format holds), or the file could not be read back
     7 undecodable case / no observation (harness error)
     8 a well-formed file was accepted with identities, but nothing could be written
       back and re-read *)
